@@ -319,6 +319,21 @@ func (ff *FuncFacts) factsAt(B *ssa.BasicBlock) *dbm {
 			}
 		}
 	}
+	// len(buf.Bytes()) == buf.Len() when nothing touches buf between the two calls
+	for _, blk := range ff.Fn.Blocks {
+		for i, in := range blk.Instrs {
+			c, ok := in.(*ssa.Call)
+			if !ok || calleeName(&c.Call) != "bytes.Buffer.Bytes" {
+				continue
+			}
+			recv := ff.Term(c.Call.Args[0])
+			if prev := ff.prevCallOn(blk, i, recv); prev != nil && calleeName(&prev.Call) == "bytes.Buffer.Len" {
+				a, b := ff.lenAtom(c), ff.Term(prev)
+				m.add(a, b, 0)
+				m.add(b, a, 0)
+			}
+		}
+	}
 	// induction variables start at >= 0 (range loops and "for i := 0")
 	for phi, name := range ff.inductionPhi {
 		lp := ff.headerLoop[phi.Block()]
@@ -542,4 +557,26 @@ func (ff *FuncFacts) okCallAt(call *ssa.Call, B *ssa.BasicBlock) bool {
 		}
 	}
 	return false
+}
+
+// prevCallOn: the nearest call before instruction i of blk (following single-
+// predecessor chains) that has an argument rendered as recv; nil if a join is met.
+func (ff *FuncFacts) prevCallOn(blk *ssa.BasicBlock, i int, recv string) *ssa.Call {
+	for hops := 0; hops < 6; hops++ {
+		for j := i - 1; j >= 0; j-- {
+			if c, ok := blk.Instrs[j].(*ssa.Call); ok {
+				for _, a := range c.Call.Args {
+					if ff.Term(a) == recv {
+						return c
+					}
+				}
+			}
+		}
+		if len(blk.Preds) != 1 {
+			return nil
+		}
+		blk = blk.Preds[0]
+		i = len(blk.Instrs)
+	}
+	return nil
 }
